@@ -44,6 +44,7 @@ def beat(what, detail=None, allow=None):
         HEART["maxgap"] = now - HEART["t"]
         HEART["maxgap_what"] = HEART["what"]
     HEART["t"] = now
+    HEART["cpu"] = time.process_time()
     HEART["what"] = what
     HEART["allow"] = allow
     if detail is not None:
@@ -55,6 +56,7 @@ def arm(on=True):
         beat("end")
     HEART["armed"] = on
     HEART["t"] = time.time()
+    HEART["cpu"] = time.process_time()
 
 
 def cap_density(lower, upper, m):
